@@ -6,6 +6,7 @@ import (
 	"io"
 	"os"
 	"strings"
+	"sync"
 
 	"mvdan.cc/sh/v3/expand"
 
@@ -28,7 +29,36 @@ type DefaultExecutor struct {
 	dir    string
 	env    []string
 	interp *interp.Runner
-	buf    bytes.Buffer
+	buf    lockedBuffer
+}
+
+// lockedBuffer collects what a job writes to stdout and to stderr. An
+// external command writes both streams from separate goroutines
+type lockedBuffer struct {
+	mu  sync.Mutex
+	buf bytes.Buffer
+}
+
+func (b *lockedBuffer) Write(p []byte) (int, error) {
+	b.mu.Lock()
+	defer b.mu.Unlock()
+
+	return b.buf.Write(p)
+}
+
+func (b *lockedBuffer) Len() int {
+	b.mu.Lock()
+	defer b.mu.Unlock()
+
+	return b.buf.Len()
+}
+
+// From returns a copy of everything written after the first offset bytes
+func (b *lockedBuffer) From(offset int) []byte {
+	b.mu.Lock()
+	defer b.mu.Unlock()
+
+	return append([]byte(nil), b.buf.Bytes()[offset:]...)
 }
 
 // NewDefaultExecutor creates new default executor
@@ -98,10 +128,10 @@ func (e *DefaultExecutor) Execute(ctx context.Context, job *Job) ([]byte, error)
 	offset := e.buf.Len()
 	err = e.interp.Run(ctx, cmd)
 	if err != nil {
-		return e.buf.Bytes()[offset:], err
+		return e.buf.From(offset), err
 	}
 
-	return e.buf.Bytes()[offset:], nil
+	return e.buf.From(offset), nil
 }
 
 // overrideEnv returns base with the definitions of over applied on top: every
